@@ -107,6 +107,8 @@ class KGen:
         x = r.below(100)
         if x < 18 and not self.no_norm:
             t, i = self.gen(dim, depth - 1)
+            if "model" in i["kinds"]:      # A x + b may be the zero vector: k(x,x) = 0, the normalised kernel is 0/0 there
+                return t, i
             return ["norm"] + t, dict(exact=False, M=Fraction(1), f=0, kinds=i["kinds"] | {"norm"}, depth=i["depth"] + 1)
         if x < 34:
             s = r.choice([Fraction(1, 2), Fraction(2), Fraction(3), Fraction(1, 4), Fraction(1), Fraction(5, 2)])
